@@ -31,6 +31,8 @@ type Item struct {
 	K   string `json:"k"`
 	M   int64  `json:"m,omitempty"`   // write: marker; save/rbto: save-point name id
 	Chk bool   `json:"chk,omitempty"` // write/read: return the statement's error; child: return the child's error
+	Via   string `json:"via,omitempty"`   // write: "" tx.Create(&row) | "exec" tx.Exec("INSERT ..") | "kept" through ONE chained handle h := tx.Model(&Marker{}) kept by the block body and reused for all its kept writes
+	Empty bool   `json:"empty,omitempty"` // kept write: when it creates the handle, its first use is an update with an empty change set (no SQL)
 	Rcv bool   `json:"rcv,omitempty"` // child: the call is wrapped in a recover(); a panic of the child is swallowed
 	B   *Blk   `json:"b,omitempty"`   // child
 }
@@ -150,7 +152,7 @@ func getEnv(c Cfg) *env {
 	name := fmt.Sprintf("db_p%v_n%v_s%v_r%v_%d.sqlite", c.Prep, c.NoNest, c.SkipDef, c.Report, envGen)
 	path := filepath.Join(workDir, name)
 	os.Remove(path)
-	dsn := "file:" + path + "?_busy_timeout=2000"
+	dsn := "file:" + path + "?_busy_timeout=300"
 	sqlDB, rec := recdrv.Open(dsn)
 	var dial gorm.Dialector = sqlite.Dialector{Conn: sqlDB}
 	if c.Report {
@@ -160,6 +162,12 @@ func getEnv(c Cfg) *env {
 		DisableNestedTransaction: c.NoNest, SkipDefaultTransaction: c.SkipDef})
 	lib.Must(err)
 	lib.Must(db.AutoMigrate(&Marker{}))
+	// the statement texts the programs use have also been run OUTSIDE any transaction before
+	// (with PrepareStmt the statement cache then holds pool-level entries for them)
+	lib.Must(db.Create(&Marker{M: 0}).Error)
+	lib.Must(db.Exec(rawInsert, 0).Error)
+	var warm int64
+	lib.Must(db.Model(&Marker{}).Count(&warm).Error)
 	fresh, err := sql.Open("c04fresh", dsn)
 	lib.Must(err)
 	e := &env{db: db, rec: rec, sqlDB: sqlDB, fresh: fresh}
@@ -198,16 +206,35 @@ type runner struct {
 	notes    []string
 }
 
+const rawInsert = "INSERT INTO markers (m) VALUES (?)"
+
 func spName(m int64) string { return fmt.Sprintf("user_sp_%d", m) }
 
 // body runs the items of a block on handle h (the ONLY handle used inside the block) and ends
 // with the scripted outcome. It may panic.
 func (r *runner) body(h *gorm.DB, b *Blk, log *[]Obs) error {
+	var kept *gorm.DB // the chained handle this body keeps and reuses
 	for i := range b.Items {
 		it := &b.Items[i]
 		switch it.K {
 		case "write":
-			res := h.Create(&Marker{M: it.M})
+			var res *gorm.DB
+			switch it.Via {
+			case "exec":
+				res = h.Exec(rawInsert, it.M)
+			case "kept":
+				if kept == nil {
+					kept = h.Model(&Marker{})
+					if it.Empty {
+						if e0 := kept.Updates(map[string]interface{}{}).Error; e0 != nil && h.Error == nil {
+							r.notes = append(r.notes, "empty update through the kept handle: "+e0.Error())
+						}
+					}
+				}
+				res = kept.Create(&Marker{M: it.M})
+			default:
+				res = h.Create(&Marker{M: it.M})
+			}
 			*log = append(*log, Obs{K: "write", M: it.M, Ret: classify(res.Error)})
 			if it.Chk && res.Error != nil {
 				return res.Error
@@ -514,7 +541,16 @@ type gen struct {
 
 func (g *gen) write() Item {
 	g.marker++
-	return Item{K: "write", M: g.marker, Chk: g.r.Chance(3, 4)}
+	it := Item{K: "write", M: g.marker, Chk: g.r.Chance(3, 4)}
+	switch c := g.r.Intn(8); {
+	case c < 2:
+		it.Via = "exec"
+	case c < 4:
+		// kept writes return their error: a failed call leaves its error in the kept handle
+		// (gorm's documented behaviour of a reused chain), which the programs do not go on using
+		it.Via, it.Chk, it.Empty = "kept", true, g.r.Bool()
+	}
+	return it
 }
 
 func (g *gen) outcome(b *Blk) {
@@ -608,6 +644,12 @@ func shapeBlk(b *Blk, sb *strings.Builder) {
 		switch it.K {
 		case "write":
 			sb.WriteByte('w')
+			if it.Via != "" {
+				sb.WriteString(it.Via[:1])
+			}
+			if it.Empty {
+				sb.WriteByte('0')
+			}
 		case "read":
 			sb.WriteByte('r')
 		case "save":
@@ -711,6 +753,12 @@ func cloneBlk(b *Blk, next *int64) Blk {
 		if it.K == "write" {
 			*next++
 			c.Items[i].M = *next
+			switch (*next + int64(len(b.Items))) % 4 { // the three ways of writing, spread over the sweep
+			case 1:
+				c.Items[i].Via = "exec"
+			case 2:
+				c.Items[i].Via, c.Items[i].Empty = "kept", *next%2 == 0
+			}
 		}
 		if it.B != nil {
 			cb := cloneBlk(it.B, next)
